@@ -139,6 +139,76 @@ Proof.
     + destruct (Z.eqb_spec (entry m i j) 0); [contradiction|reflexivity].
 Qed.
 
+Lemma dadd_true x y : dadd true x y = Z.max x y.
+Proof. reflexivity. Qed.
+
+Lemma dsum_true_nonneg l : (0 <= dsum true l)%Z.
+Proof.
+  unfold dsum. induction l as [|x t IH]; cbn [fold_right]; [lia|]. rewrite dadd_true. lia.
+Qed.
+
+Lemma fold_max_base l r :
+  (0 <= r)%Z -> fold_right (dadd true) r l = Z.max (fold_right (dadd true) 0%Z l) r.
+Proof.
+  intros H. induction l as [|x t IH]; cbn [fold_right]; [lia|]. rewrite IH.
+  generalize (fold_right (dadd true) 0%Z t). intros F. unfold dadd. lia.
+Qed.
+
+Lemma dsum_app b l1 l2 : dsum b (l1 ++ l2) = dadd b (dsum b l1) (dsum b l2).
+Proof.
+  destruct b.
+  - pose proof (dsum_true_nonneg l2) as H2. unfold dsum in *.
+    rewrite fold_right_app, (fold_max_base l1 _ H2). reflexivity.
+  - rewrite !dsum_false, sumz_app. reflexivity.
+Qed.
+
+Lemma entry_nonneg_bool m i j : m_bool m = true -> (0 <= entry m i j)%Z.
+Proof. intros H. unfold entry. rewrite H. apply dsum_true_nonneg. Qed.
+
+(** Summing the coalesced matrix at a position, in its own dtype, gives the entry. *)
+Lemma dsum_coalesce m i j :
+  dsum (m_bool m) (map snd (filter (fun t => pos_eqb (fst t) (i, j)) (coalesce m))) = entry m i j.
+Proof.
+  unfold coalesce. rewrite filter_map. simpl.
+  rewrite (filter_eq_NoDup (i, j) _ (nodup_pos_NoDup _)).
+  destruct (existsb (pos_eqb (i, j)) (nodup_pos (map fst (m_coo m)))) eqn:E; simpl.
+  - destruct (m_bool m) eqn:B; unfold dsum, dadd; simpl; [|lia].
+    pose proof (entry_nonneg_bool m i j B). lia.
+  - symmetry. apply entry_no_position. intros H. apply nodup_pos_In in H.
+    apply existsb_pos_In in H. congruence.
+Qed.
+
+Lemma entry_add_transpose m i j :
+  entry (add_transpose m) i j = dadd (m_bool m) (entry m i j) (entry m j i).
+Proof.
+  unfold entry at 1. unfold add_transpose. simpl m_coo. simpl m_bool.
+  rewrite filter_app, map_app, dsum_app, filter_transpose, !dsum_coalesce. reflexivity.
+Qed.
+
+Lemma coalesce_positions_NoDup m : NoDup (map fst (coalesce m)).
+Proof. unfold coalesce. rewrite map_map. simpl. rewrite map_id. apply nodup_pos_NoDup. Qed.
+
+Lemma entry_astype_bool m i j : entry (astype_bool m) i j = nz (entry m i j).
+Proof.
+  unfold entry at 1. unfold astype_bool. simpl m_coo. simpl m_bool.
+  rewrite filter_map, map_map. simpl.
+  unfold coalesce. rewrite filter_map. simpl.
+  rewrite (filter_eq_NoDup (i, j) _ (nodup_pos_NoDup _)).
+  destruct (existsb (pos_eqb (i, j)) (nodup_pos (map fst (m_coo m)))) eqn:E; simpl.
+  - unfold dsum, dadd, nz. simpl. destruct (entry m i j =? 0)%Z; reflexivity.
+  - rewrite entry_no_position; [reflexivity|]. intros H. apply nodup_pos_In in H.
+    apply existsb_pos_In in H. congruence.
+Qed.
+
+Lemma entry_directed2undirected_arg w m i j :
+  entry (directed2undirected_arg w m) i j =
+  if w then (entry m i j + entry m j i)%Z else nz (dadd (m_bool m) (entry m i j) (entry m j i)).
+Proof.
+  unfold directed2undirected_arg. destruct w.
+  - apply entry_directed2undirected.
+  - rewrite entry_astype_bool, entry_add_transpose. reflexivity.
+Qed.
+
 Lemma firstn1_In {A} (x : A) l : In x (firstn 1 l) -> In x l.
 Proof. destruct l as [|y t]; simpl; [tauto|]. intros [->|[]]. left. reflexivity. Qed.
 
@@ -166,6 +236,7 @@ Proof. induction l as [|x t IH]; simpl; [reflexivity|]. rewrite IH. reflexivity.
 Section IngestProofs.
   Context {id : Type}.
   Context (ideqb : id -> id -> bool) (as_int : id -> option nat) (unique : list id -> list id * list nat).
+  Context (pass : bool).
   Context (ideqb_spec : forall a b, ideqb a b = true <-> a = b).
   Context (as_int_inj : forall a b k, as_int a = Some k -> as_int b = Some k -> a = b).
   Context (uniq_ok : unique_ok ideqb unique).
@@ -401,13 +472,16 @@ Section IngestProofs.
       the undirected branch always ADDS the two directions, also when [weighted] is off. *)
   Definition coded_entry (fl : flags) (rn cn : option (list id)) (raw : list edge) (i j : nat) : Z :=
     if bipartite fl || directed fl then spec_base ideqb as_int fl rn cn raw i j
-    else (spec_base ideqb as_int fl rn cn raw i j + spec_base ideqb as_int fl rn cn raw j i)%Z.
+    else if (if pass then weighted fl else true)
+         then (spec_base ideqb as_int fl rn cn raw i j + spec_base ideqb as_int fl rn cn raw j i)%Z
+         else nz (dadd (negb (weighted fl)) (spec_base ideqb as_int fl rn cn raw i j)
+                                            (spec_base ideqb as_int fl rn cn raw j i)).
 
   Lemma tw_in_dedup fl raw (e : edge) : In e (dedup fl raw) -> In (tw fl e) (map (tw fl) (dedup fl raw)).
   Proof. apply in_map. Qed.
 
   Theorem from_edge_array_coded fl edge_array weights d :
-    from_edge_array ideqb as_int unique fl edge_array weights = Some d ->
+    from_edge_array ideqb as_int unique pass fl edge_array weights = Some d ->
     forall i j, entry (d_matrix d) i j =
                 coded_entry fl (row_names d) (col_names d) (raw_edges edge_array weights) i j.
   Proof.
@@ -452,9 +526,9 @@ Section IngestProofs.
       { intros k e He. split; apply Hf; apply in_ravel; exists (tw fl e); (split; [apply in_map; exact He|auto]). }
       destruct (directed fl) eqn:Dir; simpl.
       + apply (base_entry_spec fl names names f f raw); intros e He; apply (Hnode _ e He).
-      + rewrite entry_directed2undirected. f_equal.
-        * apply (base_entry_spec fl names names f f raw); intros e He; apply (Hnode _ e He).
-        * apply (base_entry_spec fl names names f f raw); intros e He; apply (Hnode _ e He).
+      + rewrite entry_directed2undirected_arg. simpl m_bool.
+        rewrite !(base_entry_spec fl names names f f raw); try (intros e He; apply (Hnode _ e He)).
+        reflexivity.
   Qed.
 
   (** ** The specification, with the defective combination excluded *)
@@ -478,7 +552,7 @@ Section IngestProofs.
   Qed.
 
   Lemma from_edge_array_biadj fl edge_array weights d :
-    from_edge_array ideqb as_int unique fl edge_array weights = Some d -> d_biadj d = bipartite fl.
+    from_edge_array ideqb as_int unique pass fl edge_array weights = Some d -> d_biadj d = bipartite fl.
   Proof.
     unfold from_edge_array.
     destruct (negb _); [discriminate|]. destruct (length edge_array =? 0); [discriminate|]. cbv zeta.
@@ -489,8 +563,8 @@ Section IngestProofs.
   Qed.
 
   Theorem from_edge_array_entry fl edge_array weights d :
-    from_edge_array ideqb as_int unique fl edge_array weights = Some d ->
-    (weighted fl = true \/ directed fl = true \/ bipartite fl = true \/
+    from_edge_array ideqb as_int unique pass fl edge_array weights = Some d ->
+    (pass = true \/ weighted fl = true \/ directed fl = true \/ bipartite fl = true \/
      has_reciprocal ideqb (raw_edges edge_array weights) = false) ->
     forall i j, entry (d_matrix d) i j =
                 spec_entry ideqb as_int fl (row_names d) (col_names d) (raw_edges edge_array weights) i j.
@@ -498,14 +572,16 @@ Section IngestProofs.
     intros H Hex i j. rewrite (from_edge_array_coded _ _ _ _ H).
     unfold coded_entry, spec_entry.
     destruct (bipartite fl || directed fl) eqn:BD; [reflexivity|].
-    destruct (weighted fl) eqn:W; [reflexivity|].
+    destruct (weighted fl) eqn:W; [destruct pass; reflexivity|].
     apply orb_false_iff in BD as [Bip Dir].
-    destruct Hex as [Hex|[Hex|[Hex|Hex]]]; try congruence.
     pose proof (from_edge_array_biadj _ _ _ _ H) as Hb. rewrite Bip in Hb.
     unfold row_names, col_names. rewrite Hb.
     set (raw := raw_edges edge_array weights) in *.
     destruct (spec_base_unweighted fl (d_names d) (d_names d) raw i j W) as [Ha Ha1].
     destruct (spec_base_unweighted fl (d_names d) (d_names d) raw j i W) as [Hb0 Hb1].
+    destruct pass eqn:Ps.
+    { simpl. destruct Ha as [Ha|Ha]; destruct Hb0 as [Hb0|Hb0]; rewrite ?Ha, ?Hb0; reflexivity. }
+    destruct Hex as [Hex|[Hex|[Hex|[Hex|Hex]]]]; try congruence.
     destruct Ha as [Ha|Ha]; destruct Hb0 as [Hb0|Hb0]; rewrite ?Ha, ?Hb0; try reflexivity.
     exfalso. destruct (Ha1 Ha) as [e [He [E1 [E2 E3]]]]. destruct (Hb1 Hb0) as [e' [He' [F1 [F2 F3]]]].
     assert (R : has_reciprocal ideqb raw = true).
@@ -528,7 +604,7 @@ Section IngestProofs.
   Qed.
 
   Theorem from_edge_array_names fl edge_array weights d :
-    from_edge_array ideqb as_int unique fl edge_array weights = Some d ->
+    from_edge_array ideqb as_int unique pass fl edge_array weights = Some d ->
     (forall a b, In (a, b) edge_array ->
        exists i j, i < fst (m_shape (d_matrix d)) /\ j < snd (m_shape (d_matrix d)) /\
                    is_node (row_names d) i a = true /\ is_node (col_names d) j b = true) /\
@@ -595,8 +671,9 @@ Section IngestProofs.
       { intros Hre a Ha. apply in_ravel in Ha as [e [He [-> | ->]]]; apply (Hint Hre e He). }
       assert (Hshape : m_shape (if directed fl
                 then {| m_shape := (n, n); m_coo := combine (unravel nodes) (map ew (map (tw fl) (dedup fl raw))); m_bool := negb (weighted fl) |}
-                else directed2undirected {| m_shape := (n, n); m_coo := combine (unravel nodes) (map ew (map (tw fl) (dedup fl raw))); m_bool := negb (weighted fl) |}) = (n, n)).
-      { destruct (directed fl); reflexivity. }
+                else directed2undirected_arg (if pass then weighted fl else true)
+                       {| m_shape := (n, n); m_coo := combine (unravel nodes) (map ew (map (tw fl) (dedup fl raw))); m_bool := negb (weighted fl) |}) = (n, n)).
+      { destruct (directed fl); [reflexivity|]. destruct (if pass then weighted fl else true); reflexivity. }
       rewrite Hshape. simpl.
       assert (Hnames : forall ns, names = Some ns -> NoDup ns /\ length ns = n /\
                 forall x, In x ns -> exists e, In e edge_array /\ (x = fst e \/ x = snd e)).
@@ -676,26 +753,26 @@ Proof. apply unique_ref_ok. apply String.eqb_eq. Qed.
 Definition as_int_nat (k : nat) : option nat := Some k.
 Definition as_int_str (s : string) : option nat := None.
 
-Theorem edge_array_entry_nat fl edge_array weights d :
-  from_edge_list_nat fl edge_array weights = Some d ->
-  (weighted fl = true \/ directed fl = true \/ bipartite fl = true \/
+Theorem edge_array_entry_nat pass fl edge_array weights d :
+  from_edge_list_nat pass fl edge_array weights = Some d ->
+  (pass = true \/ weighted fl = true \/ directed fl = true \/ bipartite fl = true \/
    has_reciprocal Nat.eqb (raw_edges edge_array weights) = false) ->
   forall i j, entry (d_matrix d) i j =
               spec_entry Nat.eqb as_int_nat fl (row_names d) (col_names d) (raw_edges edge_array weights) i j.
 Proof.
-  apply (from_edge_array_entry Nat.eqb as_int_nat nat_unique Nat.eqb_eq).
+  apply (from_edge_array_entry Nat.eqb as_int_nat nat_unique pass Nat.eqb_eq).
   - intros a b k Ha Hb. unfold as_int_nat in *. congruence.
   - exact nat_unique_ok.
 Qed.
 
-Theorem edge_array_entry_str fl edge_array weights d :
-  from_edge_list_str fl edge_array weights = Some d ->
-  (weighted fl = true \/ directed fl = true \/ bipartite fl = true \/
+Theorem edge_array_entry_str pass fl edge_array weights d :
+  from_edge_list_str pass fl edge_array weights = Some d ->
+  (pass = true \/ weighted fl = true \/ directed fl = true \/ bipartite fl = true \/
    has_reciprocal String.eqb (raw_edges edge_array weights) = false) ->
   forall i j, entry (d_matrix d) i j =
               spec_entry String.eqb as_int_str fl (row_names d) (col_names d) (raw_edges edge_array weights) i j.
 Proof.
-  apply (from_edge_array_entry String.eqb as_int_str str_unique String.eqb_eq).
+  apply (from_edge_array_entry String.eqb as_int_str str_unique pass String.eqb_eq).
   - intros a b k Ha. discriminate Ha.
   - exact str_unique_ok.
 Qed.
@@ -708,7 +785,7 @@ Definition d16_flags : flags :=
 
 Theorem unweighted_undirected_binary_refuted :
   exists (edge_array : list (nat * nat)) d i j,
-    from_edge_list_nat d16_flags edge_array None = Some d /\
+    from_edge_list_nat false d16_flags edge_array None = Some d /\
     entry (d_matrix d) i j = 2%Z /\
     spec_entry Nat.eqb as_int_nat d16_flags (row_names d) (col_names d) (raw_edges edge_array None) i j = 1%Z.
 Proof.
